@@ -454,6 +454,7 @@ func init() {
 		for _, t := range histTypes(g, n) {
 			genHistory(g, w, t, histOpts{steps: 3 + g.Intn(10), hcount: true})
 		}
+		genC07Targeted(g, tier, w)
 	})
 	registerGen("C17", func(g *Gen, tier string, w *bufio.Writer) {
 		n := tierN(tier, 300, 5000)
@@ -676,5 +677,93 @@ func genBoundaryHist(g *Gen, tier string, w *bufio.Writer) {
 				}
 			}
 		}
+	}
+}
+
+// genC07Targeted: single mutations on fully hashed views where the path bound is tight:
+// appends from empty through every power-of-two boundary (zero padding is expanded level by
+// level), sets, pops, default-constructed vectors (shared children), mutations through nested
+// sub-views, and elements moved from one tree into another.
+func genC07Targeted(g *Gen, tier string, w *bufio.Writer) {
+	u64 := &Ty{Kind: KUint, N: 8}
+	elems := []*Ty{u64, {Kind: KUint, N: 1}, {Kind: KBytesN, N: 32}, {Kind: KContainer, Fields: []*Ty{u64, u64}}, {Kind: KContainer, Fields: []*Ty{u64}}}
+	limits := []uint64{4, 16, 1024, 1 << 20, 1 << 40}
+	steps := tierN(tier, 18, 70)
+	for _, e := range elems {
+		for _, lim := range limits {
+			lt := &Ty{Kind: KList, N: lim, Elem: e}
+			fmt.Fprintln(w, "begin")
+			fmt.Fprintf(w, "mk r def %s\n", lt)
+			fmt.Fprintln(w, "hcount r")
+			n := uint64(0)
+			for k := 0; k < steps && n < lim; k++ {
+				if g.Chance(15) {
+					fmt.Fprintln(w, "appd r")
+				} else {
+					fmt.Fprintf(w, "app r %s\n", g.RandVal(e, 4))
+				}
+				n++
+				fmt.Fprintln(w, "hcount r")
+			}
+			for k := 0; k < 4 && n > 0; k++ {
+				fmt.Fprintf(w, "set r %d %s\n", g.Intn(int(n)), g.RandVal(e, 4))
+				fmt.Fprintln(w, "hcount r")
+			}
+			for k := 0; k < 5 && n > 0; k++ {
+				fmt.Fprintln(w, "pop r")
+				n--
+				fmt.Fprintln(w, "hcount r")
+				if n > 0 && g.Chance(50) {
+					fmt.Fprintf(w, "set r %d %s\n", g.Intn(int(n)), g.RandVal(e, 4))
+					fmt.Fprintln(w, "hcount r")
+				}
+			}
+		}
+		// default-constructed vectors: children are shared nodes
+		for _, k := range []uint64{2, 5, 16, 33} {
+			vt := &Ty{Kind: KVector, N: k, Elem: e}
+			fmt.Fprintln(w, "begin")
+			fmt.Fprintf(w, "mk r def %s\n", vt)
+			fmt.Fprintln(w, "hcount r")
+			fmt.Fprintln(w, "hcount r")
+			for j := 0; j < 3; j++ {
+				fmt.Fprintf(w, "set r %d %s\n", g.Intn(int(k)), g.RandVal(e, 4))
+				fmt.Fprintln(w, "hcount r")
+			}
+		}
+	}
+	fmt.Fprintln(w, "begin")
+	fmt.Fprintf(w, "mk r def %s\n", &Ty{Kind: KBitvector, N: 1024})
+	fmt.Fprintln(w, "hcount r")
+	fmt.Fprintln(w, "hcount r")
+	fmt.Fprintln(w, "set r 700 t")
+	fmt.Fprintln(w, "hcount r")
+	// nested sub-views and elements moved between trees
+	inner := &Ty{Kind: KContainer, Fields: []*Ty{u64, u64, u64}}
+	la := &Ty{Kind: KList, N: 8, Elem: inner}
+	outer := &Ty{Kind: KContainer, Fields: []*Ty{la, la, u64}}
+	for rep := 0; rep < tierN(tier, 6, 40); rep++ {
+		v := g.RandVal(outer, 60)
+		if len(v.Seq[0].Seq) == 0 {
+			v.Seq[0].Seq = append(v.Seq[0].Seq, g.RandVal(inner, 4))
+		}
+		if len(v.Seq[1].Seq) >= 8 {
+			v.Seq[1].Seq = v.Seq[1].Seq[:7]
+		}
+		fmt.Fprintln(w, "begin")
+		fmt.Fprintf(w, "mk r new %s %s\n", outer, v)
+		fmt.Fprintln(w, "hcount r")
+		fmt.Fprintln(w, "get a r 0")
+		fmt.Fprintln(w, "get b r 1")
+		fmt.Fprintln(w, "get e a 0")
+		fmt.Fprintf(w, "set e 1 %s\n", g.RandVal(u64, 1))
+		fmt.Fprintln(w, "hcount r")
+		fmt.Fprintln(w, "appv b e") // an already hashed element view bound into another list
+		fmt.Fprintln(w, "hcount r")
+		if len(v.Seq[1].Seq) > 0 {
+			fmt.Fprintln(w, "setv b 0 e")
+			fmt.Fprintln(w, "hcount r")
+		}
+		fmt.Fprintln(w, "obs r")
 	}
 }
